@@ -151,6 +151,25 @@ void h_where_mixed(void){
   ASSERT((i64)out == (dc[idx[0]] ? (i64)(i32)dx[idx[0]] : y), "element i == c[i] ? (long)x[i] : y   (element type long = common type of int and long)");
   OBS(out); REACHED();
 }
+/* three ARRAY operands of different element types: int and long branches; the element type is long whichever branch holds the long array */
+void h_where_mixed_xy(void){
+  u64 sc[1], idx[4], os[4] = {0}, od = 0, out = 0; u32 dc[4], dx[4]; u64 dy[4];
+  in_shape(sc, 1); in_data(dc, MAXE); in_data(dx, MAXE); for (int i = 0; i < 4; i++) dy[i] = i < MAXE ? in_bits() : 0; in_index(idx, sc, 1, 1);
+  int r = k_where_mixed_xy(sc, dc, dx, dy, idx, 1, os, &od, &out);
+  ASSERT(r == 18, "where(c[n], int x[n], long y[n]) is accepted and its declared element type is 8 bytes wide (long)");
+  ASSERT(od == 1 && os[0] == sc[0], "shape (n,)");
+  ASSERT((i64)out == (dc[idx[0]] ? (i64)(i32)dx[idx[0]] : (i64)dy[idx[0]]), "element i == c[i] ? (long)x[i] : y[i]");
+  OBS(out); REACHED();
+}
+void h_where_mixed_yx(void){
+  u64 sc[1], idx[4], os[4] = {0}, od = 0, out = 0; u32 dc[4], dy[4]; u64 dx[4];
+  in_shape(sc, 1); in_data(dc, MAXE); in_data(dy, MAXE); for (int i = 0; i < 4; i++) dx[i] = i < MAXE ? in_bits() : 0; in_index(idx, sc, 1, 1);
+  int r = k_where_mixed_yx(sc, dc, dx, dy, idx, 1, os, &od, &out);
+  ASSERT(r == 18, "where(c[n], long x[n], int y[n]) is accepted and its declared element type is 8 bytes wide (long)");
+  ASSERT(od == 1 && os[0] == sc[0], "shape (n,)");
+  ASSERT((i64)out == (dc[idx[0]] ? (i64)dx[idx[0]] : (i64)(i32)dy[idx[0]]), "element i == c[i] ? x[i] : (long)y[i]");
+  OBS(out); REACHED();
+}
 void h_clip_sss(void){
   u32 t = in_any32(), lo = in_any32(), hi = in_any32();
   u32 r = k_clip_sss(t, lo, hi);
